@@ -14,6 +14,10 @@ CHECKS = {
    technique="TLA+ PosixKey + Crash action checked by TLC; every hook site of every operation type is a real SIGKILL point of a real gateway process; TLC judges (pre-state, killed op, post-restart state) against LinKey",
    text="TLC checks that the repaired design of PosixKey with a Crash action keeps the key in its previous or its new complete state; for the real code a dry run records the hook-site sequence of each operation type (PutObject new/overwrite/with tags, CopyObject, CompleteMultipartUpload, UploadPart new/overwrite, DeleteObject) and one real gateway process is SIGKILLed at each site (and after the acknowledgement), restarted, and the key read back (body, length, ETag, metadata, tags / ListParts); TLC validates each crash history against LinKey (killed request = may or may not have taken effect; acknowledged = must be in effect). Leftovers must be invisible in listings and later PUT/GET/DELETE/DeleteBucket must work.",
    note="Process kill only (no power loss / fsync), ext4; kill points are the hook sites (code between two sites is one step); versioned operations not yet covered."),
+ "C09": dict(design="5/C09",
+   technique="TLA+ abstract gateway S3Gw/S3GwBasic (version stacks): TLC checks TypeOK + VersionsPreserved exhaustively on a small model and simulates behaviours; each is replayed over HTTP with reply and full-state comparison after every step",
+   text="The abstract spec S3Gw models buckets, version stacks (null version, delete markers, enable/suspend), copies and deletes by id; TLC checks its invariants and the action property VersionsPreserved exhaustively on a small configuration and generates random behaviours (empty bucket and a bucket whose object predates versioning). Every behaviour is replayed against a real gateway with a versioning directory; after every step the real reply and the real state (ListObjectVersions with rotating page sizes following markers, GET of every version id with bytes and metadata, GET by key) must equal the spec's prediction.",
+   note="Simulation (not exhaustive) over 2 keys / 3 contents / <=9 steps per behaviour; one client issues version-creating writes sequentially; symbolic version ids bound to real ULIDs in creation order; deleting a key that has no version is modelled as a no-op (statement silent)."),
 }
 NOT_YET = {}
 def main():
